@@ -19,8 +19,9 @@ use vcore::{Ctx, Finish, Fnv, Rng, RunOpts, ScenarioOut};
 
 #[derive(Clone, Debug)]
 enum Op {
-    UdpBind(u16),
-    TcpListen(u16),
+    /// (port, bind to localhost instead of the wildcard address)
+    UdpBind(u16, bool),
+    TcpListen(u16, bool),
     ConnectOk,
     ConnectRefused,
     ConnectNoHost,
@@ -83,10 +84,10 @@ fn gen(seed: u64) -> Scn {
             }
         };
         let op = match r.below(20) {
-            0..=2 if room => Op::UdpBind(0),
-            3..=4 => Op::UdpBind(fixed(&mut r)),
-            5..=6 if room => Op::TcpListen(0),
-            7..=8 => Op::TcpListen(fixed(&mut r)),
+            0..=2 if room => Op::UdpBind(0, r.chance(0.3)),
+            3..=4 => Op::UdpBind(fixed(&mut r), r.chance(0.4)),
+            5..=6 if room => Op::TcpListen(0, r.chance(0.3)),
+            7..=8 => Op::TcpListen(fixed(&mut r), r.chance(0.4)),
             9..=11 if room => Op::ConnectOk,
             12 if room => Op::ConnectRefused,
             13 if room => Op::ConnectNoHost,
@@ -95,14 +96,14 @@ fn gen(seed: u64) -> Scn {
             19 if r.chance(0.3) => Op::Crash,
             _ => {
                 if live.is_empty() {
-                    Op::UdpBind(fixed(&mut r))
+                    Op::UdpBind(fixed(&mut r), false)
                 } else {
                     Op::Drop(r.usize_below(1000))
                 }
             }
         };
         match &op {
-            Op::UdpBind(p) | Op::TcpListen(p) => live.push((*p == 0 || (*p >= lo && *p <= hi), *p)),
+            Op::UdpBind(p, _) | Op::TcpListen(p, _) => live.push((*p == 0 || (*p >= lo && *p <= hi), *p)),
             Op::ConnectOk => live.push((true, 0)),
             Op::Drop(_) => {
                 // keep `live` an over-approximation of the sockets that occupy
@@ -131,6 +132,7 @@ struct Shared {
 
 async fn port_program(log: Log<Ev>, s: Scn, sh: Rc<Shared>) -> turmoil::Result {
     let any = if s.v6 { "::" } else { "0.0.0.0" };
+    let lo = if s.v6 { "::1" } else { "127.0.0.1" };
     let nohost = if s.v6 { "fe80::9999" } else { "192.168.200.200" };
     let mut socks: Vec<Sock> = vec![];
     loop {
@@ -141,7 +143,7 @@ async fn port_program(log: Log<Ev>, s: Scn, sh: Rc<Shared>) -> turmoil::Result {
         }
         sh.next.set(i + 1);
         let res = match &s.ops[i] {
-            Op::UdpBind(p) => match UdpSocket::bind((any, *p)).await {
+            Op::UdpBind(p, l) => match UdpSocket::bind((if *l { lo } else { any }, *p)).await {
                 Ok(u) => {
                     let port = u.local_addr()?.port();
                     socks.push(Sock::Udp(u, port));
@@ -149,7 +151,7 @@ async fn port_program(log: Log<Ev>, s: Scn, sh: Rc<Shared>) -> turmoil::Result {
                 }
                 Err(e) => Res::Err(format!("{:?}", e.kind())),
             },
-            Op::TcpListen(p) => match TcpListener::bind((any, *p)).await {
+            Op::TcpListen(p, l) => match TcpListener::bind((if *l { lo } else { any }, *p)).await {
                 Ok(l) => {
                     let port = l.local_addr()?.port();
                     socks.push(Sock::Lis(l, port));
@@ -330,7 +332,7 @@ fn port_scenario(s: Scn) -> ScenarioOut {
                 let used = |p: u16, udp: &BTreeSet<u16>, lis: &BTreeSet<u16>, strm: &BTreeMap<u16, usize>| udp.contains(&p) || lis.contains(&p) || strm.contains_key(&p);
                 let free_exists = (s.lo..=s.hi).any(|p| !used(p, &udp, &lis, &strm));
                 match (op, res) {
-                    (Op::UdpBind(0), Res::Port(p)) | (Op::TcpListen(0), Res::Port(p)) | (Op::ConnectOk, Res::Port(p)) => {
+                    (Op::UdpBind(0, _), Res::Port(p)) | (Op::TcpListen(0, _), Res::Port(p)) | (Op::ConnectOk, Res::Port(p)) => {
                         out.count("ephemeral_assignments", 1);
                         if !in_range(*p) {
                             out.violate("ephemeral-out-of-range", "C15|ephemeral-out-of-range".into(), format!("op #{i} {op:?}: ephemeral port {p} outside {}..={}", s.lo, s.hi), desc.clone());
@@ -339,16 +341,16 @@ fn port_scenario(s: Scn) -> ScenarioOut {
                             let who = if udp.contains(p) { "udp socket" } else if lis.contains(p) { "tcp listener" } else { "live tcp stream" };
                             out.violate(
                                 "ephemeral-port-in-use",
-                                format!("C15|ephemeral-port-in-use|{}|{who}", match op { Op::UdpBind(_) => "udp-bind", Op::TcpListen(_) => "listen", _ => "connect" }),
+                                format!("C15|ephemeral-port-in-use|{}|{who}", match op { Op::UdpBind(..) => "udp-bind", Op::TcpListen(..) => "listen", _ => "connect" }),
                                 format!("op #{i} {op:?}: assigned ephemeral port {p} which is currently used by a {who}"),
                                 desc.clone(),
                             );
                         }
                         match op {
-                            Op::UdpBind(_) => {
+                            Op::UdpBind(..) => {
                                 udp.insert(*p);
                             }
-                            Op::TcpListen(_) => {
+                            Op::TcpListen(..) => {
                                 lis.insert(*p);
                             }
                             _ => {
@@ -356,11 +358,11 @@ fn port_scenario(s: Scn) -> ScenarioOut {
                             }
                         }
                     }
-                    (Op::UdpBind(0) | Op::TcpListen(0) | Op::ConnectOk, Res::Err(k)) => {
+                    (Op::UdpBind(0, _) | Op::TcpListen(0, _) | Op::ConnectOk, Res::Err(k)) => {
                         let _ = free_exists;
                         out.violate("ephemeral-failed", format!("C15|ephemeral-failed|{k}"), format!("op #{i} {op:?} failed with {k} although the model has a free ephemeral port"), desc.clone());
                     }
-                    (Op::UdpBind(want), r) => {
+                    (Op::UdpBind(want, _), r) => {
                         out.count("explicit_binds", 1);
                         let free = !udp.contains(want);
                         match r {
@@ -371,12 +373,12 @@ fn port_scenario(s: Scn) -> ScenarioOut {
                             other => out.violate(
                                 "explicit-bind-wrong",
                                 format!("C15|explicit-bind-wrong|udp|free={free}"),
-                                format!("op #{i} UdpBind({want}): port free for UDP = {free}, result {other:?}"),
+                                format!("op #{i} {op:?}: port free for UDP = {free}, result {other:?}"),
                                 desc.clone(),
                             ),
                         }
                     }
-                    (Op::TcpListen(want), r) => {
+                    (Op::TcpListen(want, _), r) => {
                         out.count("explicit_binds", 1);
                         let free = !lis.contains(want);
                         match r {
@@ -387,7 +389,7 @@ fn port_scenario(s: Scn) -> ScenarioOut {
                             other => out.violate(
                                 "explicit-bind-wrong",
                                 format!("C15|explicit-bind-wrong|tcp|free={free}"),
-                                format!("op #{i} TcpListen({want}): port free for TCP listeners = {free}, result {other:?}"),
+                                format!("op #{i} {op:?}: port free for TCP listeners = {free}, result {other:?}"),
                                 desc.clone(),
                             ),
                         }
